@@ -22,6 +22,7 @@
 (*   EndIf / StartElse / EndElse   close blocks (elif = else holding one   *)
 (*                if); code may follow an if; a branch may assign, return  *)
 (*                or both; nothing follows a statement that always returns *)
+(*                with PassOn a then-branch may stay empty (`pass`)        *)
 (*   Finish       the program is complete (it contains a return)           *)
 (* For every finished program the specification fixes                      *)
 (*   - the renamings: model argument lists incl. the function's own        *)
@@ -52,6 +53,7 @@ CONSTANTS
     IteOn,          \* TRUE: conditional expressions
     CallOn,         \* subset of DOMAIN Lib
     AugOn,          \* operators offered for augmented assignments  x op= e   (just outside the translator's subset)
+    PassOn,         \* TRUE: an if-branch may be empty (rendered as `pass`): it falls through without binding anything
     ChainOn,        \* TRUE: chained assignments x1 = x2 = e, x2 possibly a parameter (just outside the subset)
     LoopOn,         \* TRUE: counting while loops and for loops over a literal range (just outside the subset)
     MaxToks,        \* bound on the total number of expression nodes of a program (small-scope BFS instances)
@@ -258,12 +260,12 @@ PopWith(s) == frames' = [SubSeq(frames, 1, Len(frames) - 1) EXCEPT ![Len(frames)
                             [Parent EXCEPT !.stmts = Append(@, s)]]
 
 EndIf ==
-    /\ Idle /\ Len(frames) > 1 /\ Cur.kind = "then" /\ Cur.stmts # <<>>
+    /\ Idle /\ Len(frames) > 1 /\ Cur.kind = "then" /\ (IF PassOn THEN TRUE ELSE Cur.stmts # <<>>)
     /\ PopWith(If(Cur.test, Cur.stmts, <<>>))
     /\ UNCHANGED <<params, toks, todo, want, n, used, assigned, done, ok>>
 
 StartElse ==
-    /\ Idle /\ Len(frames) > 1 /\ Cur.kind = "then" /\ Cur.stmts # <<>> /\ n < MaxStmts
+    /\ Idle /\ Len(frames) > 1 /\ Cur.kind = "then" /\ (IF PassOn THEN TRUE ELSE Cur.stmts # <<>>) /\ n < MaxStmts
     /\ frames' = SetCur([Cur EXCEPT !.kind = "else", !.thenb = Cur.stmts, !.stmts = <<>>])
     /\ UNCHANGED <<params, toks, todo, want, n, used, assigned, done, ok>>
 
